@@ -216,12 +216,12 @@ func codecTypeVars(p *Program, l *LayoutEngine) map[string]string {
 }
 
 type CodecPath struct {
-	Kind    string // layout kind (uint16, ipv4, som, ...), "marshaler", "unmarshaler-value", "unmarshaler-pointer", "embedded", "untagged", "other"
-	ValTag  int    // 1 value tag present, 0 absent, -1 n/a
-	Path    Path
-	Access  []BufAccess
-	ErrNil  int
-	Calls   []Event
+	Kind   string // layout kind (uint16, ipv4, som, ...), "marshaler", "unmarshaler-value", "unmarshaler-pointer", "embedded", "untagged", "other"
+	ValTag int    // 1 value tag present, 0 absent, -1 n/a
+	Path   Path
+	Access []BufAccess
+	ErrNil int
+	Calls  []Event
 }
 
 type CodecFacts struct {
@@ -261,7 +261,10 @@ func walkCodec(p *Program, l *LayoutEngine, dir string) (*CodecFacts, error) {
 	w := NewWalker(p)
 	w.LoopFuel = 2
 	w.MaxPaths = 60000
-	w.Inline = func(f *ssa.Function, d int) bool { return false }
+	// in-package helpers are part of the codec; the recursion into embedded structs and the exported entry points stay events
+	w.Inline = inlineHelpers([]*ssa.Package{p.SSAPkg(codecRel)}, func(f *ssa.Function) bool {
+		return f == fn || (f.Object() != nil && f.Object().Exported())
+	})
 	args := make([]*Term, len(fn.Params))
 	var sName string
 	for i, prm := range fn.Params {
@@ -272,7 +275,10 @@ func walkCodec(p *Program, l *LayoutEngine, dir string) (*CodecFacts, error) {
 			sName = prm.Name()
 		}
 	}
-	w.Assume = map[string]IntervalSet{"(reflect.Value).NumField(" + sName + ")": {{1, 1}}}
+	w.Assume = map[string]IntervalSet{
+		"(reflect.Value).NumField(" + sName + ")":                           {{1, 1}},
+		"invoke:reflect.Type.NumField((reflect.Value).Type(" + sName + "))": {{1, 1}},
+	}
 	if dir == "unmarshal" {
 		w.Assume["len("+cf.Buf+")"] = IntervalSet{{64, 64}}
 		w.Assume[cf.Buf+"[0]"] = IntervalSet{{0x17, 0x17}}
